@@ -557,6 +557,14 @@ theorem flatten_error_iff (t : Stan) :
   rw [flattenStr_eq]
   cases asciiNames t <;> simp
 
+/-- **C10 / page_bytes.** The bytes `flattenToFile` puts on disk are the DOCTYPE followed by the
+rendering of the token stream, character for character: every statement about the tokens
+(`flatten_balanced`, `flatten_safe`, `flatten_text`) is a statement about the written file. -/
+theorem page_bytes (doctype : List Char) (t : Stan) (h : asciiNames t = true) :
+    flattenToFile doctype t = .ok (doctype ++ render (toks t)) := by
+  unfold flattenToFile
+  rw [flatten_render t h]
+
 theorem nested_attrToks (st : List (List Char)) (attrs : List (List Char × List Char)) (r : List Tok) :
     nested st true (attrToks attrs ++ r) = nested st true r := by
   induction attrs with
